@@ -30,9 +30,11 @@ func (e *Engine) decUF(t *T) *T {
 		ax := []*T{
 			Eq(UF("undec", BVS(64), d), t),
 			UF("pu_ok", BoolS, d),
-			InRe(d, canonDecRe),
 			InRe(d, `((_ re.loop 1 20) (re.range "0" "9"))`),
-			IntCmp("<=", mk("str.len", IntS, d), IntConst(20)),
+		}
+		if !e.lightDec {
+			// canonical form (no leading zeros) and the redundant length bound; verif.LightDecimals drops them
+			ax = append(ax, InRe(d, canonDecRe), IntCmp("<=", mk("str.len", IntS, d), IntConst(20)))
 		}
 		// exact digit counts (opt-in per harness): len(dec n) = k  <=>  10^(k-1) <= n < 10^k
 		pow := uint64(1)
